@@ -674,7 +674,7 @@ def shr1(ctx):
 
 
 def tab6b(ctx):
-    r = RuleResult("TAB-6b", "every character of the word text that enters a grapheme lookup buffer passes through Word::to_ipa", floor=9)
+    r = RuleResult("TAB-6b", "every character of the word / rule text that enters a grapheme lookup buffer passes through the input-alias mapping (Word::to_ipa, cur_as_ipa)", floor=30)
     lib = ctx.lib
     b = ctx.fn(lib, "asca::word::Word::fill_segments")
     txt = None
@@ -728,4 +728,290 @@ def tab6b(ctx):
             r.report("TAB-6b|fill_segments|raw-first", fn_loc(b, nd["ln"]), b.path, "the first character of a grapheme is taken from the text without Word::to_ipa")
     if n < 6:
         raise AnchorMissing("fill_segments: only %d buffer writes found" % n)
+    # the rule and alias lexers: every character that enters the phone buffer of get_ipa is read through cur_as_ipa
+    for lp in ("asca::lexer::Lexer", "asca::alias::lexer::AliasLexer"):
+        lb = ctx.fn(lib, lp + "::get_ipa")
+        llets = single_lets(lb.hir["body"])
+
+        def classify(e, depth=0):
+            e = hirq.strip(e)
+            if e.get("e") == "lit":
+                return "literal"
+            if e.get("e") == "mcall" and (e.get("def") or "") == lp + "::cur_as_ipa":
+                return "cur_as_ipa"
+            if e.get("e") == "mcall" and (e.get("def") or "") == lp + "::curr_char":
+                return "raw"
+            if e.get("e") == "path" and "local" in e and e["local"] in llets and depth < 4:
+                return classify(llets[e["local"]], depth + 1)
+            if e.get("e") == "mcall" and e["name"] in ("to_string", "clone", "to_owned", "into"):
+                return classify(e["recv"], depth + 1)
+            return "other"
+        m = 0
+        for nd in hirq.walk(lb.hir["body"]):
+            via = None
+            if nd["e"] == "mcall" and nd["name"] in ("push", "push_str", "insert") and (nd.get("def") or "").startswith("alloc::string::String::"):
+                via = classify(nd["args"][-1])
+            elif nd["e"] == "let" and nd["pat"].get("p") == "bind" and nd["pat"].get("ty") == "alloc::string::String" and nd.get("init") is not None:
+                via = classify(nd["init"])
+                if via == "other":
+                    via = None
+            if via is None or via == "other":
+                continue
+            m += 1
+            r.inst("%s::get_ipa: phone buffer receives %s" % (lp.rsplit("::", 1)[-1], via), fn_loc(lb, nd["ln"]), "ok" if via != "raw" else "report")
+            if via == "raw":
+                r.report("TAB-6b|%s::get_ipa|raw-push" % lp.rsplit("::", 1)[-1], fn_loc(lb, nd["ln"]), lb.path,
+                         "a character of the rule text enters the phone buffer without cur_as_ipa: the documented in-rule aliases (g ? ! ǝ φ ...) do not apply at this position of a multi-character phone")
+        if m < 3:
+            raise AnchorMissing("%s::get_ipa: only %d buffer writes found" % (lp, m))
+    return r
+
+
+# ---------------------------------------------------------------- SHR-2 (alias term lists)
+
+VEC_ITEM = "alloc::vec::Vec<asca::alias::parser::AliasItem>"
+
+
+def _chain(e):
+    """method-call chain of an expression, innermost receiver first: (root expr, [names])"""
+    names = []
+    e = hirq.strip(e)
+    while e.get("e") == "mcall":
+        names.append(e["name"])
+        e = hirq.strip(e["recv"])
+    while e.get("e") in ("addr", "unary"):
+        e = hirq.strip(e["a"])
+    return e, list(reversed(names))
+
+
+def shr2(ctx):
+    """each Transformation of an alias line pairs element i of its own side's term list, a singleton list being shared"""
+    r = RuleResult("SHR-2", "alias lines: the input / output of every Transformation come from the input / output term list, each list broadcast by its own singleton test (or cycled)", floor=4)
+    lib = ctx.lib
+    for fname in ("get_deromaniser", "get_romaniser"):
+        b = ctx.fn(lib, "asca::alias::parser::AliasParser::" + fname)
+        root = b.hir["body"]
+        # the two term lists, in source order
+        lists = [(n["pat"]["hid"], n["pat"]["name"], n["ln"]) for n in hirq.walk(root)
+                 if n["e"] == "let" and n["pat"].get("p") == "bind" and n["pat"].get("ty") == VEC_ITEM and n.get("init") is not None
+                 and any(m["e"] == "mcall" and (m.get("def") or "").startswith("asca::alias::parser::AliasParser::") for m in hirq.walk(n["init"]))]
+        if len(lists) != 2:
+            raise AnchorMissing("%s: expected two parsed term lists, found %r" % (fname, [x[1] for x in lists]))
+        lists.sort(key=lambda x: x[2])
+        side_of = {lists[0][0]: "input", lists[1][0]: "output"}
+        name_of = {h: nm for h, nm, _ in lists}
+        lets = {n["pat"]["hid"]: n["init"] for n in hirq.walk(root) if n["e"] == "let" and n["pat"].get("p") == "bind" and n.get("init") is not None and "hid" in n["pat"]}
+        # closure parameters bound from iterator chains: hid -> (list hid, chain names)
+        param_src = {}
+        for n in hirq.walk(root):
+            if n["e"] != "mcall":
+                continue
+            cl = [hirq.strip(a) for a in n["args"] if hirq.strip(a).get("e") == "closure"]
+            if not cl or not cl[0].get("params"):
+                continue
+            # receiver chain: ... .zip(B) ... or plain chain
+            rc = hirq.strip(n["recv"])
+            zips = None
+            e = rc
+            post = []
+            while e.get("e") == "mcall":
+                if e["name"] == "zip":
+                    zips = e
+                    break
+                post.append(e["name"])
+                e = hirq.strip(e["recv"])
+            pat = cl[0]["params"][0]
+            if zips is not None and pat.get("p") == "tup" and len(pat["pats"]) == 2:
+                for sub, src in ((pat["pats"][0], zips["recv"]), (pat["pats"][1], zips["args"][0])):
+                    rt, names = _chain(src)
+                    for q in hirq.walk_pats(sub):
+                        if q.get("p") == "bind" and rt.get("e") == "path" and rt.get("hid") in side_of:
+                            param_src[q["hid"]] = (rt["hid"], names)
+            elif zips is None:
+                rt, names = _chain(rc)
+                for q in hirq.walk_pats(pat):
+                    if q.get("p") == "bind" and rt.get("e") == "path" and rt.get("hid") in side_of:
+                        param_src[q["hid"]] = (rt["hid"], names)
+        # governing conditions of every expression (if-nesting)
+        conds_of = {}
+
+        def visit(node, conds):
+            if isinstance(node, dict):
+                if node.get("e") == "if":
+                    visit(node["cond"], conds)
+                    c2 = conds + [node["cond"]]
+                    visit(node["then"], c2)
+                    if node.get("else") is not None:
+                        visit(node["else"], c2)
+                    return
+                if node.get("e") == "index":
+                    conds_of[id(node)] = conds
+                for v in node.values():
+                    if isinstance(v, (dict, list)):
+                        visit(v, conds)
+            elif isinstance(node, list):
+                for v in node:
+                    visit(v, conds)
+        visit(root, [])
+
+        def len_tested(cond):
+            return {m["recv"]["hid"] for m in hirq.walk(cond) if m["e"] == "mcall" and m["name"] == "len"
+                    and hirq.strip(m["recv"]).get("e") == "path" and hirq.strip(m["recv"]).get("hid") in side_of
+                    for m in [dict(m, recv=hirq.strip(m["recv"]))]}
+
+        def provenance(e, depth=0):
+            """-> list of (list hid, how, ok, why)"""
+            e = hirq.strip(e)
+            out = []
+            if depth > 6:
+                return out
+            while e.get("e") == "mcall" and e["name"] in ("clone", "to_owned", "unwrap", "expect"):
+                e = hirq.strip(e["recv"])
+            while e.get("e") in ("addr", "unary"):
+                e = hirq.strip(e["a"])
+            if e.get("e") == "path" and "hid" in e:
+                h = e["hid"]
+                if h in param_src:
+                    lh, names = param_src[h]
+                    ok = "cycle" in names
+                    out.append((lh, "iterator " + ".".join(names), ok, "the iterator over `%s` is not cycled: a singleton list is not shared with the other side's elements" % name_of[lh]))
+                elif h in lets:
+                    out += provenance(lets[h], depth + 1)
+                return out
+            for n in hirq.walk(e):
+                if n["e"] == "index":
+                    a = hirq.strip(n["a"])
+                    if a.get("e") == "path" and a.get("hid") in side_of:
+                        i0 = hirq.strip(n["i"])
+                        if i0.get("e") == "lit":
+                            tested = set()
+                            for c in conds_of.get(id(n), []):
+                                tested |= len_tested(c)
+                            out.append((a["hid"], "[%s]" % i0["lit"], tested == {a["hid"]} or not conds_of.get(id(n)),
+                                        "the fixed element of `%s` is chosen by the length of %s" % (name_of[a["hid"]], sorted(name_of[t] for t in tested))))
+                        else:
+                            tested = set()
+                            for c in conds_of.get(id(n), []):
+                                tested |= len_tested(c)
+                            out.append((a["hid"], "[i]", tested == {a["hid"]},
+                                        "element i of `%s` is selected %s" % (name_of[a["hid"]], ("under a length test of " + str(sorted(name_of[t] for t in tested))) if tested else "without a singleton test")))
+            return out
+
+        n_tr = 0
+        for n in hirq.walk(root):
+            if n["e"] == "struct" and n.get("path") == TRANSF_PATH:
+                n_tr += 1
+                for fld, val in n["fields"]:
+                    if fld not in ("input", "output"):
+                        continue
+                    prov = provenance(val)
+                    srcs = {side_of[h] for h, _, _, _ in prov}
+                    bad = [p for p in prov if not p[2]]
+                    ok = bool(prov) and srcs == {fld} and not bad
+                    r.inst("%s: Transformation.%s <- %s" % (fname, fld, sorted({"%s%s" % (name_of[h], how) for h, how, _, _ in prov})), fn_loc(b, n["ln"]), "ok" if ok else "report")
+                    if not prov:
+                        r.report("SHR-2|%s|%s|unknown-source" % (fname, fld), fn_loc(b, n["ln"]), b.path,
+                                 "cannot trace Transformation.%s back to a term list: rule fails closed" % fld)
+                    elif srcs != {fld}:
+                        r.report("SHR-2|%s|%s|wrong-list" % (fname, fld), fn_loc(b, n["ln"]), b.path,
+                                 "Transformation.%s is taken from the %s term list" % (fld, "/".join(sorted(srcs))))
+                    elif bad:
+                        r.report("SHR-2|%s|%s|broadcast" % (fname, fld), fn_loc(b, n["ln"]), b.path,
+                                 "Transformation.%s: %s — `a, b > x` style lines pair wrongly or drop entries" % (fld, bad[0][3]))
+        if n_tr == 0:
+            raise AnchorMissing("%s builds no Transformation" % fname)
+    return r
+
+
+TRANSF_PATH = "asca::alias::Transformation"
+
+
+# ---------------------------------------------------------------- SHR-3 (`_,X` special environment)
+
+
+def _vec_items(e):
+    """elements of a `vec![..]` expression (macro expansion: the first expanded array literal), or None"""
+    e = hirq.strip(e)
+    if e.get("e") == "array":
+        return e["items"]
+    if e.get("e") == "call" and e.get("exp"):
+        for n in hirq.walk(e):
+            if n["e"] == "array" and n.get("exp"):
+                return n["items"]
+    if e.get("e") == "call" and (hirq.strip(e["f"]).get("path") or "").endswith("Vec::new"):
+        return []
+    return None
+
+
+def _mentions(e, hid):
+    names = []
+    hit = False
+    for n in hirq.walk(e):
+        if n["e"] == "mcall":
+            names.append(n["name"])
+        if n["e"] == "path" and n.get("hid") == hid:
+            hit = True
+    return hit, names
+
+
+def shr3(ctx):
+    r = RuleResult("SHR-3", "`_,X` expands to exactly two environments: `X _` and `_ X` with X reversed", floor=5)
+    lib = ctx.lib
+    b = ctx.fn(lib, "asca::parser::Parser::get_spec_env")
+    root = b.hir["body"]
+    lets = {n["pat"]["hid"]: n["init"] for n in hirq.walk(root) if n["e"] == "let" and n["pat"].get("p") == "bind" and n.get("init") is not None and "hid" in n["pat"]}
+    xs = [h for h, init in lets.items() if any(m["e"] == "mcall" and (m.get("def") or "").endswith("Parser::get_env_elements") for m in hirq.walk(init))]
+    if len(xs) != 1:
+        raise AnchorMissing("get_spec_env: the parsed element list X was not found")
+    X = xs[0]
+    ret = None
+    for n in hirq.walk(root):
+        if n["e"] == "call" and (hirq.strip(n["f"]).get("path") or "").endswith("Result::Ok") and not n.get("exp"):
+            a = hirq.strip(n["args"][0])
+            if a.get("e") == "call" and (hirq.strip(a["f"]).get("path") or "").endswith("Option::Some"):
+                ret = hirq.strip(a["args"][0])
+    if ret is None:
+        raise AnchorMissing("get_spec_env: `Ok(Some(..))` not found")
+    hops = 0
+    while ret.get("e") == "path" and ret.get("hid") in lets and hops < 4:
+        ret = hirq.strip(lets[ret["hid"]])
+        hops += 1
+    items = _vec_items(ret)
+    ok = items is not None and len(items) == 2
+    r.inst("get_spec_env returns a list of %s items" % (len(items) if items is not None else "?"), fn_loc(b, ret.get("ln")), "ok" if ok else "report")
+    if not ok:
+        r.report("SHR-3|items", fn_loc(b, ret.get("ln")), b.path,
+                 "`_,X` must become two separate environment items (two sub-rules applied one after another: `X_` then `_X`); the parser builds %s" % (
+                     "%d item(s)" % len(items) if items is not None else "a list of unrecognised shape"))
+        return r
+    want = [("before", "after", False), ("after", "before", True)]
+    for k, it in enumerate(items):
+        it0 = hirq.strip(it)
+        envs = None
+        for n in hirq.walk(it0):
+            if n["e"] == "call" and (hirq.strip(n["f"]).get("path") or "") == "asca::parser::ParseElement::Environment":
+                envs = _vec_items(n["args"][0])
+                v = hirq.strip(n["args"][0])
+                hops = 0
+                while envs is None and v.get("e") == "path" and v.get("hid") in lets and hops < 4:
+                    v = hirq.strip(lets[v["hid"]])
+                    envs = _vec_items(v)
+                    hops += 1
+                break
+        ok = envs is not None and len(envs) == 1 and hirq.strip(envs[0]).get("e") == "struct" and hirq.strip(envs[0]).get("path") == "asca::parser::Env"
+        r.inst("item %d is an Environment holding one Env" % k, fn_loc(b, it0.get("ln")), "ok" if ok else "report")
+        if not ok:
+            r.report("SHR-3|item%d|shape" % k, fn_loc(b, it0.get("ln")), b.path, "item %d of the `_,X` expansion is not an Environment with exactly one Env" % k)
+            continue
+        flds = dict((nm, val) for nm, val in hirq.strip(envs[0])["fields"])
+        full, empty, rev = want[k]
+        hit, names = _mentions(flds.get(full, {}), X)
+        e_items = _vec_items(flds.get(empty, {}))
+        e_hit, _ = _mentions(flds.get(empty, {}), X)
+        ok = hit and (("rev" in names) == rev) and e_items == [] and not e_hit
+        r.inst("item %d: %s = X%s, %s empty" % (k, full, " reversed" if rev else "", empty), fn_loc(b, hirq.strip(envs[0]).get("ln")), "ok" if ok else "report")
+        if not ok:
+            r.report("SHR-3|item%d|sides" % k, fn_loc(b, hirq.strip(envs[0]).get("ln")), b.path,
+                     "item %d of the `_,X` expansion must have %s = X%s and an empty %s (X mentioned: %s, reversed: %s, other side empty: %s)"
+                     % (k, full, " reversed" if rev else " in order", empty, hit, "rev" in names, e_items == [] and not e_hit))
     return r
